@@ -258,15 +258,19 @@ pub struct Config {
     pub te: Option<TeSpec>,
     /// how the response (and its declared length) was built
     pub build: usize,
+    /// with_chunked_threshold called BEFORE the last building step (boxed / with_data /
+    /// with_header / with_status_code) instead of after it
+    pub threshold_first: bool,
 }
 
 /// ways of building the same response: the selection must not depend on them
-pub const BUILDS: [&str; 5] = [
+pub const BUILDS: [&str; 6] = [
     "Response::new(status, [], reader, length)",
     "Response::new(status, [], reader, None) + Content-Length header through with_header",
     "Response::new(status, [Content-Length header], reader, None)",
     "Response::new(...).boxed()",
     "Response::empty(status).with_data(reader, length)",
+    "Response::new(200, [], reader, length).with_status_code(status)",
 ];
 
 impl Config {
@@ -281,6 +285,7 @@ impl Config {
             "te_header": self.te.as_ref().map(|t| format!("{}: {}", t.header_name, t.text)),
             "te_wellformed": self.te.as_ref().map(|t| t.members.is_some()),
             "built_by": BUILDS[self.build],
+            "threshold_set_before_the_last_building_step": self.threshold_first,
         })
     }
 }
@@ -294,7 +299,7 @@ fn space(tier: Tier) -> (Space, Vec<Option<TeSpec>>, Vec<(Option<usize>, Option<
         }
     }
     (
-        Space::new(&[VERSIONS.len(), STATUSES.len(), tl.len(), 2, 2, te.len(), BUILDS.len()]),
+        Space::new(&[VERSIONS.len(), STATUSES.len(), tl.len(), 2, 2, te.len(), BUILDS.len(), 2]),
         te,
         tl,
     )
@@ -308,17 +313,31 @@ pub fn judge(cfg: &Config) -> Result<(Coding, bool), (String, String)> {
     let body = body_bytes(cfg.length.unwrap_or(11));
     let cl_header = cfg.length.map(|l| Header::from_bytes(&b"Content-Length"[..], l.to_string().as_bytes()).unwrap());
     let reader = || -> Box<dyn std::io::Read + Send> { Box::new(Cursor::new(body.clone())) };
-    let mut resp: Response<Box<dyn std::io::Read + Send>> = match (cfg.build, cl_header) {
-        (1, Some(h)) => Response::new(StatusCode(cfg.status), vec![], reader(), None, None).with_header(h),
-        (2, Some(h)) => Response::new(StatusCode(cfg.status), vec![h], reader(), None, None),
-        (3, _) => Response::new(StatusCode(cfg.status), vec![], Cursor::new(body.clone()), cfg.length, None).boxed(),
-        (4, _) => Response::empty(StatusCode(cfg.status)).with_data(reader(), cfg.length),
-        _ => Response::new(StatusCode(cfg.status), vec![], reader(), cfg.length, None),
-    };
-    if let Some(t) = cfg.threshold {
-        resp = resp.with_chunked_threshold(t);
+    // the threshold is set either after the response is complete or before its last building step
+    let early = cfg.threshold_first;
+    macro_rules! thr {
+        ($r:expr, $when:expr) => {{
+            let r = $r;
+            match cfg.threshold {
+                Some(t) if $when => r.with_chunked_threshold(t),
+                _ => r,
+            }
+        }};
     }
-    let threshold = resp.chunked_threshold();
+    let resp: Response<Box<dyn std::io::Read + Send>> = match (cfg.build, cl_header) {
+        (1, Some(h)) => thr!(thr!(Response::new(StatusCode(cfg.status), vec![], reader(), None, None), early).with_header(h), !early),
+        (2, Some(h)) => thr!(thr!(Response::new(StatusCode(cfg.status), vec![h], reader(), None, None), early).with_header(Header::from_bytes(&b"X-Other"[..], &b"1"[..]).unwrap()), !early),
+        (3, _) => thr!(thr!(Response::new(StatusCode(cfg.status), vec![], Cursor::new(body.clone()), cfg.length, None), early).boxed(), !early),
+        (4, _) => thr!(thr!(Response::empty(StatusCode(cfg.status)), early).with_data(reader(), cfg.length), !early),
+        (5, _) => thr!(thr!(Response::new(StatusCode(200), vec![], reader(), cfg.length, None), early).with_status_code(StatusCode(cfg.status)), !early),
+        _ => thr!(thr!(Response::new(StatusCode(cfg.status), vec![], reader(), cfg.length, None), early).boxed(), !early),
+    };
+    // the threshold the application asked for (not what the built object reports: a building
+    // step that loses it must not go unnoticed)
+    let threshold = cfg.threshold.unwrap_or(32768);
+    if resp.chunked_threshold() != threshold {
+        return Err(("threshold-lost".into(), format!("chunked_threshold() reports {} after the response was built, {} was set", resp.chunked_threshold(), threshold)));
+    }
     let mut req_headers = Vec::new();
     req_headers.push(Header::from_bytes(&b"Host"[..], &b"x"[..]).unwrap());
     if let Some(te) = &cfg.te {
@@ -572,6 +591,7 @@ impl Check for C05 {
                 upgrade: d[4] == 1,
                 te: te[d[5]].clone(),
                 build: d[6],
+                threshold_first: d[7] == 1,
             };
             run_cfg(&cfg, acc);
         });
@@ -579,7 +599,7 @@ impl Check for C05 {
     fn rule(&self, tier: Tier) -> String {
         let (sp, te, tl) = space(tier);
         format!(
-            "full product version{{0.9,1.0,1.1}} x status{:?} x (threshold,length){} pairs x HEAD x upgrade x 5 ways of building the response and declaring its length (constructor argument, Content-Length header through with_header or the constructor list, boxed(), with_data) x {} TE values (absent, singles in 3 letter cases, all ordered pairs{} of chunked/identity/gzip with q in {{absent,1,0.9,0.5,0.001,0}}, OWS variants, {} malformed-q robustness values) = {} configurations, plus the numeric family: EVERY pair of three-decimal weights 0.000..1.000 for chunked and identity in both listing orders (2 004 002 TE values, HTTP/1.1, status 200), each printed by Response::raw_print and compared with the reference selection function; non-trivial = version 1.1 and status not 1xx/204 (selection not forced)",
+            "full product version{{0.9,1.0,1.1}} x status{:?} x (threshold,length){} pairs x HEAD x upgrade x 6 ways of building the response and declaring its length (constructor argument, Content-Length header through with_header or the constructor list, boxed(), with_data, with_status_code) x the chunking threshold set after the response is complete or before its last building step x {} TE values (absent, singles in 3 letter cases, all ordered pairs{} of chunked/identity/gzip with q in {{absent,1,0.9,0.5,0.001,0}}, OWS variants, {} malformed-q robustness values) = {} configurations, plus the numeric family: EVERY pair of three-decimal weights 0.000..1.000 for chunked and identity in both listing orders (2 004 002 TE values, HTTP/1.1, status 200), each printed by Response::raw_print and compared with the reference selection function; non-trivial = version 1.1 and status not 1xx/204 (selection not forced)",
             STATUSES, tl.len(), te.len(),
             if tier == Tier::Thorough { " and triples" } else { "" },
             te.iter().filter(|t| t.as_ref().map_or(false, |t| t.members.is_none())).count(),
@@ -620,6 +640,7 @@ impl Check for C05 {
             upgrade: c["upgrade"].as_bool().unwrap_or(false),
             te,
             build: BUILDS.iter().position(|b| Some(*b) == c["built_by"].as_str()).unwrap_or(0),
+            threshold_first: c["threshold_set_before_the_last_building_step"].as_bool().unwrap_or(false),
         };
         acc.notes.insert(format!("replaying {}", cfg.to_json()));
         run_cfg(&cfg, acc);
